@@ -24,10 +24,10 @@ Qed.
    tryget_size (store.cpp:420) trusts every size that is not page aligned: the read below asks for
    byte 6 of a 10-byte source and gets 0 bytes although no source call fails. *)
 Definition f1_src : list Z := [1; 2; 3; 4; 5; 6; 7; 8; 9; 10].
-Definition f1_cfg : config := mkCfg 4 4 false false 128 4294967295.
+Definition f1_cfg : config := mkCfg 4 4 false false 128 4294967295 false.
 Definition f1_w0 : world := mkW (mkStore 10 [(0, 10)] f1_src true 0) [] [] [] [] [] [].
 Definition f1_w2 : world :=
-  let w := reopen (evict f1_w0 5 (-1)) in
+  let w := reopen (evict f1_cfg f1_w0 5 (-1)) in
   mkW (w_st w) [] [] [170] [] [] [].
 
 Lemma f1_start_good : Good f1_src f1_cfg f1_w0.
@@ -43,8 +43,45 @@ Lemma trim_then_reopen_refuted_proof :
   Good f1_src f1_cfg f1_w0 /\
   fst (preadv2 f1_src f1_cfg false false f1_w2 6 1) = 0 /\
   Z.max 0 (Z.min 1 (zlen f1_src - 6)) = 1 /\
-  ~ MediaSizeOK f1_src f1_cfg (w_st (evict f1_w0 5 (-1))).
+  ~ MediaSizeOK f1_src f1_cfg (w_st (evict f1_cfg f1_w0 5 (-1))).
 Proof.
   split; [exact f1_start_good |]. split; [vm_compute; reflexivity |]. split; [vm_compute; reflexivity |].
   intros [_ H]. vm_compute in H. assert (5 = 10) by (apply H; discriminate). discriminate.
 Qed.
+
+(* Finding C17-F2.  FileCacheStore::evict(offset, -1) ftruncate()s the media file to `offset` also
+   when `offset` lies beyond the file's end, i.e. a trim can EXTEND the media file beyond the
+   source's size.  A store created later adopts that size; the read below asks for [8,12) of the
+   10-byte source: no source call fails, yet the read fails (in the model, whose rebuild of the
+   filled map is ideal; with a real file system the zero extension is reported as data by
+   SEEK_DATA/fiemap and the read returns 4 bytes, two of them zeros beyond the source's end). *)
+Definition f2_w2 : world :=
+  let w := reopen (evict f1_cfg f1_w0 12 (-1)) in
+  mkW (w_st w) [] [] [170; 170; 170; 170] [] [] [].
+Definition f1_cfg_patched : config := mkCfg 4 4 false false 128 4294967295 true.
+
+Lemma trim_beyond_eof_refuted_proof :
+  Good f1_src f1_cfg f1_w0 /\
+  fst (preadv2 f1_src f1_cfg false false f2_w2 8 4) = -1 /\
+  Z.max 0 (Z.min 4 (zlen f1_src - 8)) = 2 /\
+  ~ MediaSizeOK f1_src f1_cfg (w_st (evict f1_cfg f1_w0 12 (-1))) /\
+  evict f1_cfg_patched f1_w0 12 (-1) = f1_w0.
+Proof.
+  split; [exact f1_start_good |]. split; [vm_compute; reflexivity |]. split; [vm_compute; reflexivity |].
+  split; [| vm_compute; reflexivity].
+  intros [H _]. vm_compute in H. apply H. reflexivity.
+Qed.
+
+(* with the patched evict (c_tne = true) a trim at a page-aligned offset keeps MediaSizeOK *)
+Lemma trim_keeps_media_size_proof src cfg w off :
+  c_tne cfg = true -> MediaSizeOK src cfg (w_st w) -> 0 <= off -> off mod c_page cfg = 0 ->
+  MediaSizeOK src cfg (w_st (evict cfg w off (-1))).
+Proof.
+  intros Htne (Hle & Hal) Hoff Hmod. unfold evict. rewrite Z.eqb_refl. rewrite Htne. cbn [andb].
+  destruct (Z.leb_spec (zlen (s_media (w_st w))) off) as [H | H]; [split; assumption |].
+  unfold add_log, set_st, MediaSizeOK. cbn [w_st s_media s_filled s_actual].
+  rewrite zlen_resize by lia. split; [lia | intros Hn; contradiction].
+Qed.
+
+Example ex_media_size_ok : MediaSizeOK f1_src f1_cfg_patched (w_st f1_w0) /\ c_tne f1_cfg_patched = true.
+Proof. split; [split; [vm_compute; discriminate | intros _; reflexivity] | reflexivity]. Qed.
